@@ -1407,6 +1407,119 @@ theorem c14_parallel_pair (replies : List Bytes) (sched : List Nat) :
       exact ih p' h1 (h2.trans hr)
     · exact ih p hp hr
 
+theorem parStep_shape (p p' : Par) (j : Nat) (h : parStep true p j = some p') :
+    (∃ q, p'.pcs = p.pcs.set j q) ∧ p.pcs[j]? ≠ some .finished ∧ (p'.winner = p.winner ∨ p'.winner = some j) := by
+  unfold parStep at h
+  split at h
+  · rename_i hpc _
+    simp only [Option.some.injEq] at h; subst h
+    exact ⟨⟨_, rfl⟩, by rw [hpc]; simp, Or.inl rfl⟩
+  · rename_i r hpc _
+    simp only [if_true] at h
+    split at h
+    · simp only [Option.some.injEq] at h; subst h
+      exact ⟨⟨_, rfl⟩, by rw [hpc]; simp, Or.inl rfl⟩
+    · simp only [Option.some.injEq] at h; subst h
+      exact ⟨⟨_, rfl⟩, by rw [hpc]; simp, Or.inr rfl⟩
+  · rename_i r hpc _
+    simp only [Option.some.injEq] at h; subst h
+    exact ⟨⟨_, rfl⟩, by rw [hpc]; simp, Or.inl rfl⟩
+  · rename_i hpc _
+    split at h
+    · simp only [Option.some.injEq] at h; subst h
+      exact ⟨⟨_, rfl⟩, by rw [hpc]; simp, Or.inl rfl⟩
+    · simp only [Option.some.injEq] at h; subst h
+      exact ⟨⟨_, rfl⟩, by rw [hpc]; simp, Or.inr rfl⟩
+  · simp at h
+
+/-- **… also when some of the asked nodes cannot be reached**: any subset of the nodes fails
+(`none`), the others answer in any order and with any overlap — a node that is handed back is one
+that answered, and `ret` holds exactly its reply; if every node fails nobody is handed back (the
+caller gets the first error). -/
+theorem c14_parallel_pair_with_failures (replies : List (Option Bytes)) (sched : List Nat) :
+    let p := parRun true (parInitF replies) sched
+    (p.done = true → ∃ i r, p.winner = some i ∧ replies[i]? = some (some r) ∧ p.ret = some r) ∧
+    ((∀ r ∈ replies, r = none) → p.done = false ∧ p.winner = none) := by
+  have key : ∀ p : Par, p.Inv → p.replies = replies.map (fun r => r.getD []) →
+      (∀ (i : Nat), replies[i]? = some none → p.pcs[i]? = some .finished) →
+      (∀ (i : Nat), p.winner = some i → ∃ r, replies[i]? = some (some r)) →
+      let p' := parRun true p sched
+      p'.Inv ∧ p'.replies = replies.map (fun r => r.getD []) ∧
+      (∀ (i : Nat), p'.winner = some i → ∃ r, replies[i]? = some (some r)) := by
+    induction sched with
+    | nil => intro p h1 h2 _ h4; exact ⟨h1, h2, h4⟩
+    | cons a as ih =>
+      intro p h1 h2 h3 h4
+      simp only [parRun]
+      split
+      · rename_i p' hs
+        obtain ⟨hI, hr⟩ := parStep_inv p p' a hs h1
+        obtain ⟨⟨q, hq⟩, hnf, hw⟩ := parStep_shape p p' a hs
+        have hne : ∀ i, replies[i]? = some none → i ≠ a := by
+          intro i hi e; subst e; exact hnf (h3 i hi)
+        refine ih p' hI (hr.trans h2) ?_ ?_
+        · intro i hi
+          rw [hq, List.getElem?_set_ne (fun e => hne i hi e.symm)]
+          exact h3 i hi
+        · intro i hi
+          rcases hw with hw | hw
+          · exact h4 i (hw ▸ hi)
+          · rw [hw] at hi
+            simp only [Option.some.injEq] at hi
+            subst hi
+            -- node `a` moved, so it is not one of the failing ones
+            cases hra : replies[a]? with
+            | none =>
+              -- no such node: the routine cannot have moved
+              exfalso
+              have hrn : p.replies[a]? = none := by rw [h2]; simp [hra]
+              unfold parStep at hs
+              rw [hrn] at hs
+              split at hs <;> simp_all
+            | some o =>
+              cases o with
+              | some r => exact ⟨r, rfl⟩
+              | none => exact absurd rfl (hne a hra)
+      · exact ih p h1 h2 h3 h4
+  intro p
+  have h0 : (parInitF replies).Inv := by
+    refine ⟨by simp [parInitF], ?_⟩
+    intro i pc hpc
+    simp only [parInitF, List.getElem?_map] at hpc
+    cases hr : replies[i]? with
+    | none => simp [hr] at hpc
+    | some r => simp only [hr, Option.map_some, Option.some.injEq] at hpc; subst hpc; split <;> simp
+  obtain ⟨hI, hr, hw⟩ := key (parInitF replies) h0 rfl
+    (by
+      intro i hi
+      simp [parInitF, List.getElem?_map, hi])
+    (by intro i hi; simp [parInitF] at hi)
+  change Par.Inv p at hI
+  have part1 : p.done = true → ∃ i r, p.winner = some i ∧ replies[i]? = some (some r) ∧ p.ret = some r := by
+    intro hd
+    obtain ⟨i, r, h1, h2, h3⟩ := hI.1 hd
+    obtain ⟨r', hr'⟩ := hw i h1
+    refine ⟨i, r', h1, hr', ?_⟩
+    have : p.replies[i]? = some r' := by
+      change (parRun true (parInitF replies) sched).replies[i]? = some r'
+      rw [hr]; simp [hr']
+    rw [this] at h2; cases h2; exact h3
+  refine ⟨part1, ?_⟩
+  intro hall
+  have hwn : p.winner = none := by
+    cases hwi : p.winner with
+    | none => rfl
+    | some i =>
+      obtain ⟨r, hr'⟩ := hw i hwi
+      have := hall _ (List.mem_of_getElem? hr')
+      cases this
+  refine ⟨?_, hwn⟩
+  cases hd : p.done with
+  | false => rfl
+  | true =>
+    obtain ⟨i, _, h1, _⟩ := part1 hd
+    rw [hwn] at h1; cases h1
+
 /-- decoding outside the mutex breaks it: two replies overlap, node 0 is handed back with node 1's
 reply in `ret` -/
 theorem c14_parallel_unlocked_decode_mismatch :
